@@ -49,9 +49,19 @@ def make_classify(f, outp, errno_val, events_extra=()):
 
     def classify(I, e):
         if I.op == "load" and I.ops[0] in errno_calls:
+            if ("errno",) in e:
+                # the library itself assigned errno since the OS call: that value is what the test sees
+                v = e[("errno",)]
+                return ("bind", ("i", I.id), v) if isinstance(v, int) else None
             if errno_val is None:
                 return None
             return ("bind", ("i", I.id), errno_val)
+        if I.op == "store" and I.ops[1] in errno_calls:
+            v = I.ops[0]
+            val = int(v[1]) if v[0] == "c" else e.get(v, "unknown")
+            if isinstance(val, int):
+                val &= 0xFFFFFFFF
+            return [("bind", ("errno",), val), ("errno-overwritten", val)]
         if I.op == "call":
             nm = I.callee
             intr = I.get("intrinsic") or ""
@@ -120,14 +130,14 @@ def variant_rules(ck, mod, variant, errnos):
         cl = make_classify(f, outp, en)
         return fin.explore(f, oc.id, set_ret_env(f, oc, keys, r), cl, stop_at=[oc.id])
 
-    neg = [(-1) & 0xFFFFFFFF, (-4) & 0xFFFFFFFF, 1 << 31]
+    neg = [-1, -4, -(1 << 31)]
     # RETRY
     for en, enn in ((EINTR, "EINTR"), (EAGAIN, "EAGAIN")):
         for r in neg:
             nclasses += 1
             ps = outcomes(r, en)
             bad = [p for p in ps if p.end[0] != "reach" or p.events]
-            ck.ob(bool(ps) and not bad, "R-C18-RETRY", f.name, "retry(ret=%d,errno=%s)[%s]" % (r - (1 << 32), enn, label),
+            ck.ob(bool(ps) and not bad, "R-C18-RETRY", f.name, "retry(ret=%d,errno=%s)[%s]" % (r, enn, label),
                   "%s() failing with %s re-issues the same %s() call with no other effect" % (name, enn, name),
                   "%s() failing with %s does not simply retry: %s" % (name, enn, _desc(bad[:1])), where=relpath(oc.where),
                   path=ir.path_desc(f, bad[0].blocks) if bad else None)
@@ -156,7 +166,7 @@ def variant_rules(ck, mod, variant, errnos):
                     ok = False
                     why = "writes something other than zeros to the seed buffer"
                     break
-            ck.ob(ok, "R-C18-PERM", f.name, "permanent(ret=%d,errno=%d)[%s]" % (r - (1 << 32), en, label),
+            ck.ob(ok, "R-C18-PERM", f.name, "permanent(ret=%d,errno=%d)[%s]" % (r, en, label),
                   "%s() failing with errno %d: buffer zeroed (32 bytes), returns 0, no back edge" % (name, en),
                   "%s() failing with permanent errno %d: %s" % (name, en, why), where=relpath(oc.where))
     # OK
